@@ -1161,6 +1161,9 @@ def flip(x, /, *, axis=None):
         axis = range(x.ndim)
     if not isinstance(axis, Iterable):
         axis = (axis,)
+    axis = normalize_axis(tuple(axis), x.ndim)
+    if len(set(axis)) != len(axis):
+        raise ValueError("repeated axis")
 
     new_coords = x.coords.copy()
     for ax in axis:
